@@ -109,12 +109,12 @@ pub fn property(id: &str) -> Option<PropertyRun> {
         },
         "C14" => PropertyRun {
             id: id.into(),
-            parts: vec![Box::new(Campaign(roundtrip::C14)), Box::new(FuzzPart { target: "roundtrip_asp", runs_thorough: 400_000 })],
+            parts: vec![Box::new(Campaign(roundtrip::C14)), Box::new(Campaign(roundtrip::SizeBoundary)), Box::new(FuzzPart { target: "roundtrip_asp", runs_thorough: 400_000 })],
             assumptions: vec!["input text comes from the checker's own printer; trees outside the image of the parser are never required to round-trip".into()],
         },
         "C15" => PropertyRun {
             id: id.into(),
-            parts: vec![Box::new(Campaign(roundtrip::C15)), Box::new(Campaign(roundtrip::C15Outputs)), Box::new(Campaign(roundtrip::C15TheoryOutputs)), Box::new(Campaign(roundtrip::FolFrontEnd)), Box::new(Campaign(roundtrip::AcceptedNamesOutput)), Box::new(FuzzPart { target: "roundtrip_fol", runs_thorough: 150_000 })],
+            parts: vec![Box::new(Campaign(roundtrip::C15)), Box::new(Campaign(roundtrip::C15Outputs)), Box::new(Campaign(roundtrip::C15TheoryOutputs)), Box::new(Campaign(roundtrip::FolFrontEnd)), Box::new(Campaign(roundtrip::AcceptedNamesOutput)), Box::new(Campaign(roundtrip::LargeOutputs)), Box::new(FuzzPart { target: "roundtrip_fol", runs_thorough: 150_000 })],
             assumptions: vec!["input text comes from the checker's own printer; trees outside the image of the parser are never required to round-trip".into()],
         },
         "C18" => PropertyRun {
